@@ -2015,13 +2015,11 @@ class Measurement:
         self_upper = self.measurand + self.uncertainty
         other_upper = other.measurand + other.uncertainty
 
+        # two intervals overlap exactly when each starts before the other ends
         try:
-            overlaps_lower = self_lower <= other_lower <= self_upper
-            overlaps_upper = self_lower <= other_upper <= self_upper
+            return bool(self_lower <= other_upper and other_lower <= self_upper)
         except TypeError:
             return False
-
-        return overlaps_lower or overlaps_upper
 
     def __lt__(self, other: object) -> bool:
         if isinstance(other, Quantity):
